@@ -108,6 +108,11 @@ func (sg *specGen) bodySpec(bodies []*gen.Body, concrete bool, labelsInside int)
 		} else if as.Required && ty != cty.DynamicPseudoType && gen.Chance(sg.r, 0.1) {
 			sp = &hcldec.RefineValueSpec{Wrapped: as, Refine: func(b *cty.RefinementBuilder) *cty.RefinementBuilder { return b }}
 			sg.use("RefineValueSpec")
+		} else if as.Required && ty != cty.DynamicPseudoType && !ty.HasDynamicTypes() && gen.Chance(sg.r, 0.08) {
+			// one parsed expression object shared by every spec that uses it,
+			// whatever the wrapped type (as an application's spec table would)
+			sp = &hcldec.TransformExprSpec{Wrapped: as, Expr: xformWrap, VarName: "v", TransformCtx: &hcl.EvalContext{Functions: stdCtyFuncs}}
+			sg.use("TransformExprSpec")
 		} else if ty == cty.String && gen.Chance(sg.r, 0.3) {
 			switch sg.r.Intn(3) {
 			case 0:
@@ -121,8 +126,7 @@ func (sg *specGen) bodySpec(bodies []*gen.Body, concrete bool, labelsInside int)
 				}
 			default:
 				if as.Required {
-					e, _ := hclsyntax.ParseExpression([]byte("[v, slen(v)]"), "transform.hcl", hcl.InitialPos)
-					sp = &hcldec.TransformExprSpec{Wrapped: as, Expr: e, VarName: "v", TransformCtx: &hcl.EvalContext{Functions: stdCtyFuncs}}
+					sp = &hcldec.TransformExprSpec{Wrapped: as, Expr: xformLen, VarName: "v", TransformCtx: &hcl.EvalContext{Functions: stdCtyFuncs}}
 					sg.use("TransformExprSpec")
 				}
 			}
@@ -239,6 +243,10 @@ func (sg *specGen) bodySpec(bodies []*gen.Body, concrete bool, labelsInside int)
 	return obj
 }
 
+// transform expressions, parsed once and shared by all specs of the process
+var xformLen, _ = hclsyntax.ParseExpression([]byte("[v, slen(v)]"), "transform.hcl", hcl.InitialPos)
+var xformWrap, _ = hclsyntax.ParseExpression([]byte("[v]"), "transform.hcl", hcl.InitialPos)
+
 func labelNames(n int) []string {
 	out := make([]string, n)
 	for i := range out {
@@ -334,10 +342,16 @@ func (sg *specGen) expect(spec hcldec.Spec, b *gen.Body, labels []string) (cty.V
 		return out, true
 	case *hcldec.TransformExprSpec:
 		v, ok := sg.expect(s.Wrapped, b, labels)
-		if !ok || v.IsNull() {
+		if !ok {
 			return cty.NilVal, false
 		}
-		// the harness's only transform expression is [v, slen(v)]
+		// the harness's transform expressions are [v, slen(v)] and [v]
+		if s.Expr == xformWrap {
+			return cty.TupleVal([]cty.Value{v}), true
+		}
+		if v.IsNull() {
+			return cty.NilVal, false
+		}
 		return cty.TupleVal([]cty.Value{v, cty.NumberIntVal(int64(len([]rune(v.AsString()))))}), true
 	case *hcldec.BlockSpec:
 		blks := blocksOfType(b, s.TypeName)
